@@ -153,13 +153,9 @@ pub(crate) fn wakes(id: usize) -> u32 {
     unsafe { E.wakes[id] }
 }
 pub(crate) fn total_wakes() -> u32 {
-    let mut n = 0;
-    let mut i = 0;
-    while i < NWAKERS {
-        n += unsafe { E.wakes[i] };
-        i += 1;
-    }
-    n
+    // straight-line on purpose: harness loops force a larger unwind bound, and CBMC applies that bound to the
+    // recursion it sees through function pointers (waker vtables, erased destructors) too — cost explodes.
+    unsafe { E.wakes[0] + E.wakes[1] + E.wakes[2] + E.wakes[3] + E.wakes[4] + E.wakes[5] }
 }
 
 // ---------------------------------------------------------------- lock hook (rely/guarantee)
